@@ -1,3 +1,52 @@
-(* C25 — Multi-database flushes are crash consistent.  (theorems are added as they are proved) *)
+(* C25 — Multi-database flushes are crash consistent.
+   Only theorem statements, each closed by [exact <lemma>], and Print Assumptions.
+
+   [run_pool fk scale h] runs the history h of user operations through the model of
+   flushable.SyncedPool and yields the log of durable operations (rs_log) and one record per
+   completed flush (rs_recs): position in the log, flush ID, and the contents of every open
+   database according to the independent specification CrashBase.spec_step (an abstract map per
+   database driven by the user's puts, deletes, batches and drops only).  The orders in which the
+   four loops of flush() range over Go maps are oracle lists inside each HFlush of h, so "for
+   every h" includes "for every phase order".  [crash log k] is the world after the first k
+   durable operations; l is the surviving databases in ANY order (CheckDBsSynced ranges over a
+   Go map); [crash_consistent] says: the verdict is dirty / not synced / non-initialised, or it is
+   "no flush" and every surviving database is empty, or it is the mark of a flush completed at or
+   before k and every surviving database holds exactly its contents at that flush (databases
+   absent at that flush are empty). *)
 From Coq Require Import NArith List.
-From LV Require Import lib.Bytes model.CrashBase model.SyncedPool model.Flagged.
+From LV Require Import lib.Bytes model.CrashBase model.SyncedPool model.Flagged
+  proofs.CrashBaseProofs proofs.SyncedPoolProofs.
+Import ListNotations.
+Local Open Scope N_scope.
+
+Theorem C25_pool_crash_consistent : forall fk scale h k l,
+  history_avoids fk h = true ->
+  lists_world l (crash (rs_log (run_pool fk scale h)) k) ->
+  crash_consistent fk (rs_recs (run_pool fk scale h)) k (crash (rs_log (run_pool fk scale h)) k) l.
+Proof. exact pool_crash_consistent. Qed.
+
+(* Recovery reads the verdict off the marks alone: an OK verdict means every surviving database
+   carries exactly that (non-dirty) mark, "no flush" means no database carries a mark. *)
+Theorem C25_check_ok_some : forall fk l m,
+  check_synced fk l = COk (Some m) ->
+  l <> [] /\ forall n c, In (n, c) l -> dget fk c = Some m /\ is_dirty m = false.
+Proof. exact check_ok_some. Qed.
+Theorem C25_check_ok_none : forall fk l,
+  check_synced fk l = COk None -> forall n c, In (n, c) l -> dget fk c = None.
+Proof. exact check_ok_none. Qed.
+
+(* non-vacuity: a history with two flushes, a queued drop and crash points of every kind *)
+Definition C25_ex_fk : bytes := [255].
+Definition C25_ex_h : list hop :=
+  [HPut 1 [97] [1]; HPut 2 [98] [7]; HFlush [1] []; HPut 1 [97] [2]; HDrop 2; HFlush [2] []].
+Example C25_pool_example :
+  history_avoids C25_ex_fk C25_ex_h = true /\
+  map (fun k => check_synced C25_ex_fk (crash (rs_log (run_pool C25_ex_fk 1 C25_ex_h)) k)) (seq 0 13)
+  = [COk None; COk None; CDirty; CDirty; CDirty; CDirty; CDirty; CDirty;
+     COk (Some [0; 1]); COk (Some [0; 1]); CDirty; CDirty; COk (Some [0; 2])] /\
+  map r_pos (rs_recs (run_pool C25_ex_fk 1 C25_ex_h)) = [8%nat; 12%nat].
+Proof. vm_compute. repeat split. Qed.
+
+Print Assumptions C25_pool_crash_consistent.
+Print Assumptions C25_check_ok_some.
+Print Assumptions C25_check_ok_none.
